@@ -2,7 +2,7 @@
     Property theorems only, about the definitions REGENERATED from
     ibicus/utils/_running_window_mode.py (Gen/GenWindows.v). *)
 From Coq Require Import ZArith List Bool Sorted.
-From IV Require Import NP GenWindows C07_proofs.
+From IV Require Import NP GenWindows C07_proofs Grid Driver Driver_proofs Driver_corollaries.
 Import ListNotations.
 Open Scope Z_scope.
 
@@ -70,6 +70,31 @@ Theorem C07_years_adjusted_exactly_once : forall S ys years i,
   length (filter (fun c => NP.zmem (nth i years 0) (years_to_adjust S c)) (years_window_centers S ys)) = 1%nat.
 Proof. exact years_adjusted_exactly_once. Qed.
 Print Assumptions C07_years_adjusted_exactly_once.
+
+(** the scatter loop (Model/Driver.v, correspondence K3) over the regenerated window functions:
+    for every per-window result Wc aligned with the window, the loop never fails its length check
+    and the value at every index k is the window result, at k's position in the window, of the
+    UNIQUE centre adjusting k *)
+Theorem C07_driver_spec : forall (V : Type) (L S : Z) (dA : list Z) (Wc : Z -> list V),
+  0 < S -> S <= L -> (forall d, In d dA -> 1 <= d <= 366) -> S mod 2 = 1 ->
+  (forall c, In c (days_window_centers S dA) -> length (Wc c) = length (days_indices_in_window L dA c)) ->
+  exists out, driver V L S dA Wc = Some out /\ length out = length dA /\
+    forall k, 0 <= k < Z.of_nat (length dA) ->
+      exists c v, In c (days_window_centers S dA) /\ In k (days_indices_to_adjust S dA c) /\
+        In k (days_indices_in_window L dA c) /\
+        (forall c', In c' (days_window_centers S dA) -> In k (days_indices_to_adjust S dA c') -> c' = c) /\
+        lookupZ V k (combine (days_indices_in_window L dA c) (Wc c)) = Some v /\ nth (Z.to_nat k) out None = Some v.
+Proof. exact driver_spec. Qed.
+Print Assumptions C07_driver_spec.
+
+(** hence the returned series has a defined value at every time step *)
+Theorem C07_driver_defined_everywhere : forall (V : Type) (L S : Z), 0 < S -> S <= L -> S mod 2 = 1 ->
+  forall dA (Wc : Z -> list V), (forall d, In d dA -> 1 <= d <= 366) ->
+  (forall c, In c (days_window_centers S dA) -> length (Wc c) = length (days_indices_in_window L dA c)) ->
+  exists out, driver V L S dA Wc = Some out /\ length out = length dA /\
+    forall k, 0 <= k < Z.of_nat (length dA) -> exists v, nth (Z.to_nat k) out None = Some v.
+Proof. exact driver_defined_everywhere. Qed.
+Print Assumptions C07_driver_defined_everywhere.
 
 (** non-vacuity / sanity by computation: a leap year starting on 1 March (days 61..366, 1..60),
     S = 31, L = 91; and the sub-annual span 4..18 with S = L = 15 that the unrepaired formula missed *)
